@@ -236,7 +236,10 @@ def run_direct(repo, R):
             where=top.where(E.returns[0][0]), expected=str(want), found=str(out))
     # tensordot axes (0, 0): the primitive axis of the coefficients with the primitive axis of the product
     tds = calls_in(fn, "np.tensordot")
-    ok = len(tds) == 1 and ast.unparse(tds[0].args[0]) == p[5] and len(tds[0].args) == 3 and ast.unparse(tds[0].args[2]) == "(0, 0)"
+    if len(tds) != 1 or len(tds[0].args) != 3 or p[5] not in (ast.unparse(tds[0].args[0]), ast.unparse(tds[0].args[1])):
+        raise AnalysisError("DIRECT", f"the contraction of `{p[5]}` with the primitives is not a single np.tensordot(.., .., axes): idiom not recognised",
+                            top.where(tds[0]) if tds else top.where())
+    ok = ast.unparse(tds[0].args[0]) == p[5] and ast.unparse(tds[0].args[2]) == "(0, 0)"
     R.check(ok, "DIRECT", top.site, "np.tensordot(prim_coeffs, ..., (0, 0))", "primitives must be contracted with the (K, M) coefficient matrix on axis 0",
             where=top.where(tds[0]) if tds else top.where(), expected="(0, 0)", found=ast.unparse(tds[0].args[2]) if tds and len(tds[0].args) == 3 else None)
     return max_order, masks
